@@ -13,7 +13,12 @@
      "dev:<Name>"     the observation is not what the property demands but is EXACTLY what the
                       named deviation of Adapter (the pinned library's known behaviour) predicts;
      "<call>:<who>:<clause>"  anything else, named after the first clause of the property that
-                      fails (count, sev, dest, format, msg, time, rec-attrs, given-attrs, ...).
+                      fails (count, sev, dest, format, msg, time, rec-attrs, given-attrs, ...;
+                      "rec-attrs:dupkey" / "given-attrs:dupkey" when every missing attribute
+                      shares its key with another one of its group - see Adapter, EQUAL KEYS).
+   PROCESSES.  The registry is process-wide and cannot be undone: the line "Proc" starts a new
+   process (factory tables), "Reset" a new behaviour in the same process (the registry stays).
+   Behaviours that register levels are executed in a process of their own.
    Every rejected line is printed as  @@bad {"line":..,"key":..}; at the end @@end {lines, bad}.
 
    Observed record (decoded by the harness, independent of the library):
@@ -48,62 +53,71 @@ LeafMatches(E, O) ==
     /\ O.kind = E.k /\ O.v = E.v
     /\ (PathOK(E.p, O) \/ PathOK(SubSeq(E.p, E.q + 1, Len(E.p)), O))
 
-AllPresent(Es, Os) == \A x \in 1..Len(Es) : \E y \in 1..Len(Os) : LeafMatches(Es[x], Os[y])
+Present(E, Os) == \E y \in 1..Len(Os) : LeafMatches(E, Os[y])
+
+\* the leaves of part (a sequence) that must be in the output - not displaced by a later attribute
+\* with the same key anywhere in the record's tree `all` - but are not
+Missing(part, all, Os) == {L \in ToSet(part) : ~Displaced(L, all) /\ ~Present(L, Os)}
+
+AttrClause(name, part, all, Os) ==
+    LET miss == Missing(part, all, Os)
+    IN IF miss = {} THEN "ok"
+       ELSE IF \E L \in miss : ~Contested(L, all) THEN name
+       ELSE name \o ":dupkey"
 
 MsgOK(m, o) == IF o.fmt = "color" THEN o.msg = FirstLine(m) ELSE o.msg = m
 
 \* first failing clause of one record against the canonical record c; strictTime = FALSE for a
 \* fresh detached logger (its time layout is not the one the harness configured)
-RecClause(c, o, strictTime) ==
-    IF o.w # WriterOf(c.dest, o.sev) THEN "dest"
+RecClause(s, c, o, strictTime) ==
+    IF o.w # WriterOf(s, c.dest, o.sev) THEN "dest"
     ELSE IF o.fmt # c.fmt THEN "format"
     ELSE IF ~MsgOK(c.msg, o) THEN "msg"
     ELSE IF strictTime /\ o.t # c.t THEN "time"
-    ELSE IF ~AllPresent(c.rec, o.leaves) THEN "rec-attrs"
-    ELSE IF ~AllPresent(c.given, o.leaves) THEN "given-attrs"
-    ELSE "ok"
+    ELSE IF AttrClause("rec-attrs", c.rec, AllLeaves(c), o.leaves) # "ok" THEN AttrClause("rec-attrs", c.rec, AllLeaves(c), o.leaves)
+    ELSE AttrClause("given-attrs", c.given, AllLeaves(c), o.leaves)
 
 -----------------------------------------------------------------------------
 (* verdicts *)
 
 Who(h) == IF h = 1 THEN "root" ELSE "derived"
 
-EnabledClause(hs, e, dbg) == IF e.out \in EnabledSet(hs, e.v, dbg) THEN "ok" ELSE "enabled"
+EnabledClause(s, hs, e) == IF e.out \in EnabledSet(s, hs, e.v) THEN "ok" ELSE "enabled"
 
 EnabledVerdict(s, e) ==
-    LET c == EnabledClause(s.hs[e.h].s, e, s.dbg)
+    LET c == EnabledClause(s, s.hs[e.h].s, e)
     IN IF c = "ok" THEN "ok"
-       ELSE IF e.h > 1 /\ EnabledClause(FreshHandler, e, s.dbg) = "ok" THEN "dev:DerivedFresh"
+       ELSE IF e.h > 1 /\ EnabledClause(s, FreshHandler, e) = "ok" THEN "dev:DerivedFresh"
        ELSE "enabled:" \o Who(e.h)
 
 \* e: [h, v, sh, via, t, mi, en, recs]; log/slog.Logger asks Enabled first and calls Handle iff yes
-HandleClause(hs, e, dbg, strictTime) ==
-    IF e.en \notin EnabledSet(hs, e.v, dbg) THEN "enabled"
+HandleClause(s, hs, e, strictTime) ==
+    IF e.en \notin EnabledSet(s, hs, e.v) THEN "enabled"
     ELSE IF Len(e.recs) # (IF e.en THEN 1 ELSE 0) THEN "count"
     ELSE IF ~e.en THEN "ok"
     ELSE LET o == e.recs[1]
-         IN IF o.sev \notin MapLevel(e.v) THEN "sev"
-            ELSE RecClause(Canon(hs, o.sev, e.sh, e.t, HMsgs[e.mi]), o, strictTime)
+         IN IF o.sev \notin MapLevel(s, e.v) THEN "sev"
+            ELSE RecClause(s, Canon(hs, o.sev, e.sh, e.t, HMsgs[e.mi]), o, strictTime)
 
 HandleVerdict(s, e) ==
-    LET c == HandleClause(s.hs[e.h].s, e, s.dbg, TRUE)
+    LET c == HandleClause(s, s.hs[e.h].s, e, TRUE)
     IN IF c = "ok" THEN "ok"
-       ELSE IF e.h > 1 /\ HandleClause(FreshHandler, e, s.dbg, FALSE) = "ok" THEN "dev:DerivedFresh"
+       ELSE IF e.h > 1 /\ HandleClause(s, FreshHandler, e, FALSE) = "ok" THEN "dev:DerivedFresh"
        ELSE "handle:" \o Who(e.h) \o ":" \o c
 
 \* Entry.Log(v): some severity of sevs is chosen; the record appears iff the logger admits it
 EntryLogClause(s, e, sevs) ==
-    IF Len(e.recs) = 0 THEN (IF \E r \in sevs : ~Gate(s.dbg, s.lg.level, r) THEN "ok" ELSE "count")
+    IF Len(e.recs) = 0 THEN (IF \E r \in sevs : ~Gate(s, s.lg.level, r) THEN "ok" ELSE "count")
     ELSE IF Len(e.recs) > 1 THEN "count"
     ELSE LET o == e.recs[1]
          IN IF o.sev \notin sevs THEN "sev"
-            ELSE IF ~Gate(s.dbg, s.lg.level, o.sev) THEN "gate"
+            ELSE IF ~Gate(s, s.lg.level, o.sev) THEN "gate"
             ELSE IF ~MsgOK(HMsgs[e.mi], o) THEN "msg"
-            ELSE IF o.w # WriterOf("cfg", o.sev) THEN "dest"
+            ELSE IF o.w # WriterOf(s, "cfg", o.sev) THEN "dest"
             ELSE "ok"
 
 EntryLogVerdict(s, e) ==
-    LET c == EntryLogClause(s, e, MapLevel(e.v))
+    LET c == EntryLogClause(s, e, MapLevel(s, e.v))
     IN IF c = "ok" THEN "ok"
        ELSE IF EntryLogClause(s, e, {CodeEntryLogLevel(e.v)}) = "ok" THEN "dev:EntryLogUnknownFatal"
        ELSE "entrylog:" \o c
@@ -117,12 +131,13 @@ BridgeClause(s, e, emits) ==
        ELSE LET o == e.recs[1]
             IN IF s.br.sev = Always /\ Blank(m) THEN "ok"     \* printed as an empty line by design
                ELSE IF o.sev # s.br.sev THEN "sev"
+               ELSE IF o.w # WriterOf(s, "cfg", o.sev) THEN "dest"
                ELSE IF ~MsgOK(m, o) THEN "msg"
                ELSE IF e.direct /\ (e.n # Len(b) \/ e.err) THEN "ret"
                ELSE "ok"
 
 BridgeVerdict(s, e) ==
-    LET c == BridgeClause(s, e, Gate(s.dbg, s.lg.level, s.br.sev))
+    LET c == BridgeClause(s, e, Gate(s, s.lg.level, s.br.sev))
     IN IF c = "ok" THEN "ok"
        ELSE IF BridgeClause(s, e, s.br.sev >= s.lg.level) = "ok" THEN "dev:BridgeInverted"
        ELSE "bridge:" \o c
@@ -142,7 +157,9 @@ NewHandlerVerdict(s2, e) ==
 Ideal(S) == CHOOSE x \in S : TRUE
 
 Step(s, e) ==   \* successor state (ideal branch) and verdict of one line
-    CASE e.op = "Reset" -> [s |-> InitState, v |-> "ok"]
+    CASE e.op = "Proc" -> [s |-> InitState, v |-> "ok"]
+      [] e.op = "Reset" -> [s |-> ResetState(s), v |-> "ok"]
+      [] e.op = "Register" -> [s |-> RegisterStep(s, [val |-> e.val, treat |-> e.treat, err |-> e.err]), v |-> "ok"]
       [] e.op = "NewHandler" -> LET s2 == NewHandlerStep(s, e.L, e.oi) IN [s |-> s2, v |-> NewHandlerVerdict(s2, e)]
       [] e.op = "WithAttrs" -> [s |-> Ideal(DeriveSteps(s, e.h, AttrStep(e.a))), v |-> "ok"]
       [] e.op = "WithGroup" -> [s |-> Ideal(DeriveSteps(s, e.h, GroupStep(e.g))), v |-> "ok"]
@@ -172,5 +189,8 @@ Done == i <= Len(TLog) \/ PrintT("@@end " \o ToJson([lines |-> Len(TLog), bad |-
 \* the model's own invariants on every state the implementation visits
 TKeepsConfig == KeepsConfig
 TAddsGiven == AddsGiven
+TRecordWins == RecordWins
+TStdIndependent == StdIndependent
+TRegistryLocal == RegistryLocal
 TTypeOK == TypeOK
 =============================================================================
